@@ -290,6 +290,14 @@ Proof.
   destruct (old =? t); reflexivity.
 Qed.
 
+Lemma toggle_set : forall e loc old a t,
+  arg_T a = Some t ->
+  rToggleCb e loc old [a] = Some (if old =? t then (old, []) else (t, [Bcast (mk loc [a])])) /\
+  rArrayTCb_elem e loc old [a] = Some (t, if old =? t then [] else [Bcast (mk loc [a])]).
+Proof.
+  intros e loc old a t H. split; [apply rToggleCb_set|apply rArrayTCb_elem_set]; exact H.
+Qed.
+
 (* -------------------------------------------------------------- strings *)
 Lemma strncpy_upd : forall n s x,
   nul_free s ->
